@@ -405,8 +405,19 @@ def closeHeadPump (Htol Qtol A hs he q : Rat) : Bool := decide (he - hs > A + Ht
 /-- `_OpenHeadPumpCondition.evaluate`, REPAIRED: a closed pump is opened only below its shut-off head -/
 def openHeadPump (A hs he : Rat) : Bool := decide (he - hs ≤ A)
 
-/-- `_ClosePowerPumpCondition.evaluate`: `Hmax = 1e10`, no test on the flow -/
+/-- `_ClosePowerPumpCondition.evaluate` as the pinned tree codes it: `Hmax = 1e10`, no test on the flow -/
 def closePowerPump (Htol Hmax hs he : Rat) : Bool := decide (he - hs > Hmax + Htol)
+
+/-- `_OpenPowerPumpCondition.evaluate` as coded: always true below `Hmax` -/
+def openPowerPump (Htol Hmax hs he : Rat) : Bool := decide (he - hs ≤ Hmax + Htol)
+
+/-- PROPOSED repair (fixes/C02-power-pump-reverse-flow.patch): close on reported reverse flow as well -/
+def closePowerPumpRepaired (Htol Qtol Hmax hs he q : Rat) : Bool :=
+  decide (he - hs > Hmax + Htol) || decide (q < -Qtol)
+
+/-- PROPOSED repair: a closed power pump is (re)opened only where it has to add head -/
+def openPowerPumpRepaired (Htol Hmax hs he : Rat) : Bool :=
+  decide (Htol < he - hs) && decide (he - hs ≤ Hmax + Htol)
 
 /-- status of a CV pipe / pump after one post-solve pass: the close control has priority `very_high` and
 runs last, the open control `very_low`; `status = Closed if _internal_status == Closed else _user_status` -/
